@@ -693,9 +693,14 @@
            (or (string? (car sre))
                (memq (car sre)
                      '(char-set / char-range & and ~ complement - difference))
-               (and (memq (car sre)
-                          '(|\|| or w/case w/nocase w/unicode w/ascii))
-                    (every char-set-sre? (cdr sre)))))))
+               (and (memq (car sre) '(|\|| or))
+                    (every char-set-sre? (cdr sre)))
+               ;; (w/nocase sre ...) is a sequence: only the
+               ;; single-argument form can denote a char-set
+               (and (memq (car sre) '(w/case w/nocase w/unicode w/ascii))
+                    (pair? (cdr sre))
+                    (null? (cddr sre))
+                    (char-set-sre? (cadr sre)))))))
 
 (define (non-greedy-sre? sre)
   (and (pair? sre)
